@@ -126,11 +126,16 @@ def derive_seed(base: int, *parts: Any) -> int:
 
 
 def load_known() -> List[dict]:
-    if not os.path.exists(KNOWN_FILE):
-        return []
-    with open(KNOWN_FILE) as f:
-        data = json.load(f)
-    return [e for e in data.get("findings", []) if e.get("kind") == "known"]
+    import glob
+
+    out: List[dict] = []
+    for path in [KNOWN_FILE, *sorted(glob.glob(os.path.join(ROOT, "known", "*.json")))]:
+        if not os.path.exists(path):
+            continue
+        with open(path) as f:
+            data = json.load(f)
+        out.extend(e for e in data.get("findings", []) if e.get("kind") == "known")
+    return out
 
 
 def _match_value(spec: Any, value: Any) -> bool:
@@ -318,6 +323,34 @@ def run_cell_shard(prop: str, cell_id: str, tier: str, base_seed: int, shard: in
     return finish()
 
 
+_SCRATCH: Optional[str] = None
+
+
+def scratch_dir() -> str:
+    """Per-process scratch directory (removed when the worker finishes; atexit for the main process)."""
+    global _SCRATCH
+    if _SCRATCH is None or not os.path.isdir(_SCRATCH) or _SCRATCH_PID[0] != os.getpid():
+        import atexit
+        import tempfile
+
+        _SCRATCH = tempfile.mkdtemp(prefix="vf_")
+        _SCRATCH_PID[0] = os.getpid()
+        atexit.register(cleanup_scratch)
+    return _SCRATCH
+
+
+_SCRATCH_PID = [0]
+
+
+def cleanup_scratch() -> None:
+    global _SCRATCH
+    import shutil
+
+    if _SCRATCH is not None and _SCRATCH_PID[0] == os.getpid():
+        shutil.rmtree(_SCRATCH, ignore_errors=True)
+        _SCRATCH = None
+
+
 def _child(conn, args) -> None:
     try:
         out = run_cell_shard(*args)
@@ -341,6 +374,7 @@ def _child(conn, args) -> None:
         conn.send(out)
     finally:
         conn.close()
+        cleanup_scratch()
 
 
 def run_tasks(tasks: List[tuple], tier: str, jobs: int) -> List[dict]:
